@@ -166,6 +166,9 @@ func checkSvcCtxTranscript(tr []svcEvent, key int, reqKinds map[uint32]string) [
 		case "dispose":
 			if at == firstDisposeReq {
 				firstDisposeResp = i
+			}
+			{
+				// every dispose (also a second one, answered through respondAfterDispose)
 				for _, b := range builds {
 					if b.start < i && (b.end < 0 || b.end > i) {
 						out = append(out, fmt.Sprintf("event %d: the dispose response arrived while the build started at event %d had not reached on-end", i, b.start))
@@ -173,9 +176,6 @@ func checkSvcCtxTranscript(tr []svcEvent, key int, reqKinds map[uint32]string) [
 				}
 			}
 		case "cancel":
-			if firstDisposeReq >= 0 && firstDisposeReq < i {
-				continue // once dispose was requested the service answers cancel at once (recorded separately)
-			}
 			for _, b := range builds {
 				if b.start < at && (b.end < 0 || b.end > i) {
 					out = append(out, fmt.Sprintf("event %d: the cancel response arrived while the build started at event %d (before the cancel request at event %d) had not reached on-end", i, b.start, at))
